@@ -89,6 +89,11 @@ def all_configs():
                "escape": escape, "quoting": quoting, "line": line}
 
 
+# characters other tools take for line breaks (str.splitlines), a byte order mark and a tab: ordinary cell content
+# for a delimited file, but exactly what a reader or writer that pre-processes lines or encodings stumbles over
+EXTRA_ATOMS = ["\x0b", "\x0c", "\x1c", "\x1e", "\x85", "\u2028", "\u2029", "\ufeff", "\t"]
+
+
 def atoms_of(config):
     atoms = []
     for atom in (config["delimiter"], config["quote"], config["escape"], " ", "\r", "\n", "x", "\xe9"):
@@ -319,6 +324,8 @@ def systematic_tables(config):
     specials = [a for a in atoms if a not in ("x", "\xe9")]
     cells = [""] + atoms + [a + b for a in atoms for b in atoms] + ["x" + a + "\xe9" for a in specials]
     cells += [a + a + a for a in specials[:3]]
+    cells += [e for e in EXTRA_ATOMS if e not in atoms] + ["x" + e + "\xe9" for e in EXTRA_ATOMS if e not in atoms]
+    cells += ["\ufeffx", "\n\n", "\r\r", "\r\n\r\n", "a\n\nb"]
     tables = [[], [[""]], [["", ""]], [[""], [""]], [[""] * 4] * 5, [["x"], [""], ["x"]], [["", "x", ""]]]
     position = 0
     number = 0
@@ -410,6 +417,7 @@ def table_cases(draw):
         "line": draw(st.sampled_from(LINES)),
     }
     atoms = atoms_of(config)
+    atoms = atoms + atoms + [e for e in EXTRA_ATOMS if e not in atoms]
     columns = draw(st.integers(1, 4))
     cell = st.lists(st.sampled_from(atoms), min_size=0, max_size=5).map("".join)
     table = draw(st.lists(st.lists(cell, min_size=columns, max_size=columns), min_size=0, max_size=5))
